@@ -38,6 +38,9 @@ def run(rep, tier):
     import C04
     rep.rule("R-REJECT-SHRINK", "implicit solvers: on every rejecting path (error test, predicted or actual Newton failure, singular matrix) the next step is c*|h| with 0 < c < 1 (interval evaluation over validated field ranges)")
     C04.r_reject_shrink(rep, f, only=("radau", "bdf"), positive=True)
+    rep.rule("R-LU-SOLVE", "the linear algebra under both Newton iterations: factorise-then-solve returns the solution (lu_decomp + lin_solve, n <= 3, and the complex pair, n <= 2, evaluated exactly on every outcome of the pivot-ordering tests; A*x - b == 0 as an identity of rational functions)")
+    import linalg as _linalg
+    _linalg.r_lu_solve(rep, f, thorough=False)
     rep.rule("R-REJECT-CONSUMED", "the flag a rejected attempt raises (and that caps the next step at the current one) is false again at the end of every iteration that accepted its step - otherwise the step can never grow after the first rejection (symbolic latch states of one iteration, all path variants)")
     if limits.r_reject_consumed(rep, f, only=("radau", "bdf")) < 1:
         rep.inconc("R-REJECT-CONSUMED", "R-REJECT-CONSUMED:floor", "no reject flag found in Radau/BDF (expected Radau's)")
